@@ -404,9 +404,19 @@ func evaluateX(im image, cfg drv.Cfg, withJournal, light bool) *outcome {
 	if diff := diffFiles(d1, d2); diff != "" {
 		o.Idem = "second recovery changed " + diff
 	}
+	// the closed, recovered directory: every index file matches its log
+	w.Dis = nil
+	w.L = nil
+	w.CheckIndexFiles()
+	for _, d := range w.Dis {
+		o.Views = append(o.Views, "after recovery and Close: "+d.Msg)
+	}
 	// the log can be appended to and still passes Check
 	p = safely(func() {
-		lg, err = klevdb.Open(dir, cfg.Options())
+		// (no rollover here: Check only looks at the newest segment, the appended message must land in the recovered one)
+		ao := cfg.Options()
+		ao.Rollover = 1 << 20
+		lg, err = klevdb.Open(dir, ao)
 		if err != nil {
 			o.Append = "Open after recovery failed: " + err.Error()
 			return
@@ -900,6 +910,9 @@ func expand(f *seqx.Family, t Task, letter string) (seqx.Succ, error) {
 		seenC05[dg] = true
 		cnt.Distinct++
 		where := fmt.Sprintf("event %d of the journal, image %s", k, im.describe())
+		if os.Getenv("VERIF_DEBUG_IMG") != "" {
+			fmt.Fprintf(os.Stderr, "IMG hist=%v letter=%s k=%d %s %s | %s -> open=%q walk=%v next=%d views=%v idem=%q append=%q\n", t.Hist, letter, k, step, variant, im.describe(), o.OpenErr, offs(o.Walk), o.Next, o.Views, o.Idem, o.Append)
+		}
 		for _, sym := range judgeC05(o, call, before, after) {
 			report("C05", call, step, variant, sym, where)
 		}
